@@ -21,6 +21,7 @@ import (
 type digest [32]byte
 
 type snapWalker struct {
+	tails   bool // argument snapshots: the bytes behind len up to cap of every flat slice belong to the caller, too
 	h       hash.Hash
 	visited map[visitKey]int
 	buf     [9]byte
@@ -161,10 +162,15 @@ func (w *snapWalker) walk(v reflect.Value) {
 		}
 		n := v.Len()
 		w.tag('s', uint64(n))
+		et := t.Elem()
+		if w.tails && v.Cap() > n && flat(et) && et.Size() > 0 {
+			// spare capacity: a callee appending to (or scribbling behind) a slice argument writes here
+			w.tag('T', uint64(v.Cap()-n))
+			w.raw(unsafe.Add(v.UnsafePointer(), uintptr(n)*et.Size()), uintptr(v.Cap()-n)*et.Size())
+		}
 		if n == 0 {
 			return
 		}
-		et := t.Elem()
 		if flat(et) {
 			w.raw(v.UnsafePointer(), uintptr(n)*et.Size())
 			return
@@ -266,6 +272,43 @@ func snapshot(x interface{}) digest {
 	var d digest
 	w.h.Sum(d[:0])
 	return d
+}
+
+// snapshotArg is snapshot for shared ARGUMENTS: it also covers the spare capacity (len..cap) of every flat
+// slice reachable from x. Results and returned values are digested by snapshot (their spare capacity is
+// allocator garbage).
+func snapshotArg(x interface{}) digest {
+	w := &snapWalker{tails: true, h: sha256.New(), visited: map[visitKey]int{}}
+	w.walk(reflect.ValueOf(x))
+	var d digest
+	w.h.Sum(d[:0])
+	return d
+}
+
+const sentinel = 0xa5
+
+// spareOf returns a copy of s that is a prefix of a larger array (extra more elements) whose tail holds the
+// sentinel pattern: what an argument looks like when it is a field of a record, a window into a pooled buffer
+// or a tag shared by several callers. T must be a flat type (bytes, field elements, points).
+func spareOf[T any](s []T, extra int) []T {
+	full := make([]T, len(s)+extra)
+	copy(full, s)
+	if extra > 0 {
+		var z T
+		tail := unsafe.Slice((*byte)(unsafe.Pointer(&full[len(s)])), uintptr(extra)*unsafe.Sizeof(z))
+		for i := range tail {
+			tail[i] = sentinel
+		}
+	}
+	return full[:len(s)]
+}
+
+// adjacent places first and second next to each other in one backing array followed by a sentinel tail:
+// first = rec[0:len(first)] keeps the capacity of the whole record, so that a callee appending to first writes
+// into second.
+func adjacent(first, second []byte) ([]byte, []byte) {
+	rec := spareOf(append(append([]byte(nil), first...), second...), 24)
+	return rec[:len(first)], rec[len(first) : len(first)+len(second)]
 }
 
 // ---- scribbling over returned values ------------------------------------------------------------
